@@ -110,6 +110,7 @@ type peer struct {
 	silent    bool   // handshake peer that never sends anything
 	hs        bool   // attached by a handshake step (hello)
 	deaf      bool   // hung up during the handshake: nothing is observed any more
+	notify    chan struct{} // signalled by the reader on every received message
 	challenge string // the challenge the router issued to this peer
 	chMethod  string
 }
@@ -238,9 +239,13 @@ func (x *Exec) RunScenario(sc *Scenario) {
 	for _, in := range sc.Steps {
 		x.step(sc, in)
 	}
-	if n := len(sc.Steps); n > 0 && sc.Steps[n-1].Op == "burst" && sc.Steps[n-1].How == "mix" {
+	if n := len(sc.Steps); n > 0 && sc.Steps[n-1].Op == "burst" && sc.Steps[n-1].How != "pub" {
 		// after a mixed burst the routing state is not tracked any more: the scenario ends
+		// with a sign of life from the router
 		sc.Epilogue = false
+		if sc.Steps[n-1].How == "mix" {
+			x.step(sc, Input{Op: "alive"})
+		}
 	}
 	if sc.Epilogue {
 		// let every handler that is retrying a RESULT to a blocked caller finish
@@ -423,6 +428,7 @@ func (x *Exec) newPeer(name string, j Join) *peer {
 		stall:   make(chan struct{}),
 		stop:    make(chan struct{}),
 		resume:  make(chan struct{}),
+		notify:  make(chan struct{}, 1),
 		subReq:  map[wamp.ID]subInfo{},
 		unReq:   map[wamp.ID]wamp.ID{},
 		subs:    map[wamp.ID]subInfo{},
@@ -475,6 +481,10 @@ func (x *Exec) newPeer(name string, j Join) *peer {
 				p.inbox = append(p.inbox, stamped{m, x.nowMs()})
 				n := p.respond
 				p.mu.Unlock()
+				select {
+				case p.notify <- struct{}{}:
+				default:
+				}
 				if inv, ok := m.(*wamp.Invocation); ok && n > 0 {
 					// auto-responder of burst steps: n progressive results, then the final one
 					for i := 1; i <= n; i++ {
@@ -712,6 +722,7 @@ func (x *Exec) step(sc *Scenario, in Input) {
 	}
 	req := wamp.ID(in.Req)
 	uri := wamp.URI(unchars(in.URI))
+	t0 := x.nowMs()
 	switch in.Op {
 	case "join":
 		if p != nil {
@@ -923,8 +934,26 @@ func (x *Exec) step(sc *Scenario, in Input) {
 		args, kw := x.metaArgs(in)
 		p.callReq[req] = string(uri)
 		p.send(&wamp.Call{Request: req, Options: wamp.Dict{}, Procedure: uri, Arguments: args, ArgumentsKw: kw})
+	case "pci":
+		// unmodelled traffic between two tainted sessions (C06): a progressive call
+		// invocation with a router-side timeout, sent in in.ID chunks
+		callee, caller := x.peers[in.S], x.peers[in.Args[0]]
+		if callee == nil || caller == nil {
+			skip()
+			return
+		}
+		callee.send(&wamp.Register{Request: 1, Options: wamp.Dict{}, Procedure: "pci.proc"})
+		synctest.Wait()
+		for i := 0; i < in.ID; i++ {
+			a, kw := payload("pci")
+			caller.send(&wamp.Call{Request: 2, Options: wamp.Dict{"progress": i < in.ID-1 || in.How == "open", "timeout": in.Ms},
+				Procedure: "pci.proc", Arguments: a, ArgumentsKw: kw})
+			synctest.Wait()
+		}
 	case "burst":
 		x.burst(in)
+	case "alive":
+		x.signOfLife()
 	case "stall":
 		if !live {
 			skip()
@@ -982,9 +1011,14 @@ func (x *Exec) step(sc *Scenario, in Input) {
 		if in.With != nil {
 			// the next input arrives while the shutdown is in progress
 			if in.With.Op == "join" && x.peers[in.With.S] == nil {
+				if in.With.R != in.R && in.With.R >= 0 && in.With.R < len(x.realms) && x.realms[in.With.R].alive {
+					// ... in another realm, which the removal must not disturb (C11)
+					x.realmCtx = x.realms[in.With.R]
+				}
 				q := x.newPeer(in.With.S, in.With.Join)
 				q.send(&wamp.Hello{Realm: x.uri, Details: helloDetails(in.With.Join)})
 				q.joined = true
+				x.realmCtx = x.realms[in.R]
 			} else if q := x.peers[in.With.S]; q != nil && q.joined && !q.dropped && !q.gone {
 				x.sendConcurrent(q, *in.With)
 			}
@@ -1016,6 +1050,7 @@ func (x *Exec) step(sc *Scenario, in Input) {
 	synctest.Wait()
 
 	outs, binds := x.collect(in)
+	cross := in.With != nil && in.With.Op == "join" && in.With.R != in.R && in.Op == "rmrealm"
 	for _, rc := range x.realms {
 		if !rc.alive {
 			continue
@@ -1027,6 +1062,29 @@ func (x *Exec) step(sc *Scenario, in Input) {
 		case in.Op == "advance" || in.Op == "snap":
 			// time and the final snapshot are global: every realm's trace has them
 			ev.In.R = rc.idx
+		case cross && rc.idx == in.With.R:
+			// the session that joined this realm while the other one was being removed:
+			// welcomed at once (its WELCOME carries the time), then the clock moves on
+			ev.In = *in.With
+			ev.Out, ev.Bind = outs[rc.idx], binds[rc.idx]
+			for _, so := range ev.Out {
+				for _, m := range so.M {
+					if m.K == "WELCOME" && so.S == in.With.S {
+						ev.Bind.Sid = m.A
+					}
+				}
+			}
+			ev.Now = t0
+			ev.BadIDs = rc.badIDs
+			x.emit(ev)
+			if d := x.nowMs() - t0; d > 0 {
+				x.emit(Event{Ev: "step", Scn: rc.scn, In: Input{Op: "advance", R: rc.idx, Ms: d}, Now: x.nowMs(), BadIDs: rc.badIDs})
+			}
+			continue
+		case rc.idx != in.R && in.Op == "rmrealm" && x.nowMs() > t0 && len(outs[rc.idx]) == 0:
+			// the removal took (virtual) time: the other realms' clocks move on as well
+			x.emit(Event{Ev: "step", Scn: rc.scn, In: Input{Op: "advance", R: rc.idx, Ms: x.nowMs() - t0}, Now: x.nowMs(), BadIDs: rc.badIDs})
+			continue
 		case rc.idx != in.R:
 			if len(outs[rc.idx]) == 0 {
 				continue
@@ -2243,7 +2301,131 @@ func (x *Exec) sendConcurrent(p *peer, in Input) {
 // ---------------------------------------------------------------------------
 // C07 / C08: bursts - several sessions send their programs concurrently
 
+// await blocks until the peer's inbox holds a message satisfying ok (or five
+// seconds of virtual time have passed: the router did not answer).
+func (x *Exec) await(p *peer, ok func(wamp.Message) bool) (wamp.Message, bool) {
+	deadline := time.After(5 * time.Second)
+	seen := 0
+	for {
+		p.mu.Lock()
+		for ; seen < len(p.inbox); seen++ {
+			if m := p.inbox[seen].m; m != nil && ok(m) {
+				p.mu.Unlock()
+				return m, true
+			}
+		}
+		p.mu.Unlock()
+		select {
+		case <-p.notify:
+		case <-deadline:
+			return nil, false
+		case <-x.quit:
+			return nil, false
+		}
+	}
+}
+
+// churn: request/reply loops of one session inside a burst (C07: workers must not
+// wait on each other in a cycle). regchurn registers and unregisters a procedure
+// of its own n times; metaloop calls a meta procedure n times.
+func (x *Exec) churn(p *peer, op Input) {
+	base := wamp.ID(op.Req)
+	for i := 0; i < op.ID; i++ {
+		req := base + wamp.ID(2*i)
+		switch op.Op {
+		case "regchurn":
+			p.send(&wamp.Register{Request: req, Options: wamp.Dict{}, Procedure: wamp.URI("churn." + p.name)})
+			m, ok := x.await(p, func(m wamp.Message) bool {
+				switch m := m.(type) {
+				case *wamp.Registered:
+					return m.Request == req
+				case *wamp.Error:
+					return m.Request == req
+				}
+				return false
+			})
+			if !ok {
+				return
+			}
+			if r, isReg := m.(*wamp.Registered); isReg {
+				p.mu.Lock()
+				p.unReq[req+1] = r.Registration
+				p.mu.Unlock()
+				p.send(&wamp.Unregister{Request: req + 1, Registration: r.Registration})
+				if _, ok := x.await(p, func(m wamp.Message) bool {
+					switch m := m.(type) {
+					case *wamp.Unregistered:
+						return m.Request == req+1
+					case *wamp.Error:
+						return m.Request == req+1
+					}
+					return false
+				}); !ok {
+					return
+				}
+			}
+		case "metaloop":
+			p.mu.Lock()
+			p.callReq[req] = "wamp.session.count"
+			p.mu.Unlock()
+			p.send(&wamp.Call{Request: req, Options: wamp.Dict{}, Procedure: "wamp.session.count"})
+			if _, ok := x.await(p, func(m wamp.Message) bool {
+				switch m := m.(type) {
+				case *wamp.Result:
+					return m.Request == req
+				case *wamp.Error:
+					return m.Request == req
+				}
+				return false
+			}); !ok {
+				return
+			}
+		}
+	}
+}
+
+// slowCaller: a fresh callee answers a call of a fresh caller with n progressive
+// results and a final one while the caller, whose queue holds q messages, does not
+// read for three seconds (C08: yield order survives the result-retry path).
+func (x *Exec) slowCaller(n, q int) {
+	callee := x.newPeer("ze", Join{Authid: "u1", Feats: []string{"callee:progressive_call_results", "callee:call_canceling"}, Local: true})
+	caller := x.newPeer("zc", Join{Authid: "u2", Local: true, Q: q})
+	for _, p := range []*peer{callee, caller} {
+		p.send(&wamp.Hello{Realm: x.uri, Details: helloDetails(Join{Authid: "u1", Feats: []string{"callee:progressive_call_results", "callee:call_canceling"}, Local: true})})
+		p.joined = true
+	}
+	synctest.Wait()
+	callee.send(&wamp.Register{Request: 1, Options: wamp.Dict{}, Procedure: "slow.proc"})
+	synctest.Wait()
+	callee.mu.Lock()
+	callee.respond = n
+	callee.mu.Unlock()
+	caller.stall <- struct{}{}
+	a, kw := payload("Bslow.1")
+	caller.callReq[7] = "slow.proc"
+	caller.send(&wamp.Call{Request: 7, Options: wamp.Dict{"receive_progress": true}, Procedure: "slow.proc", Arguments: a, ArgumentsKw: kw})
+	time.Sleep(3 * time.Second)
+	caller.resume <- struct{}{}
+	time.Sleep(70 * time.Second)
+}
+
+// alive: a fresh session joins and asks wamp.session.count (C07: whatever happened
+// before, the router still serves requests).
+func (x *Exec) signOfLife() {
+	p := x.newPeer("zz", Join{Authid: "u1", Local: true})
+	p.send(&wamp.Hello{Realm: x.uri, Details: helloDetails(Join{Authid: "u1", Local: true})})
+	p.joined = true
+	synctest.Wait()
+	p.callReq[1] = "wamp.session.count"
+	p.send(&wamp.Call{Request: 1, Options: wamp.Dict{}, Procedure: "wamp.session.count"})
+	time.Sleep(10 * time.Second)
+}
+
 func (x *Exec) burst(in Input) {
+	if in.How == "slow" {
+		x.slowCaller(in.ID, in.Ms)
+		return
+	}
 	var wg sync.WaitGroup
 	for _, pr := range in.Prog {
 		p := x.peers[pr.S]
@@ -2267,7 +2449,11 @@ func (x *Exec) burst(in Input) {
 		go func(p *peer, ops []Input) {
 			defer wg.Done()
 			for _, op := range ops {
-				x.sendConcurrent(p, op)
+				if op.Op == "regchurn" || op.Op == "metaloop" {
+					x.churn(p, op)
+				} else {
+					x.sendConcurrent(p, op)
+				}
 			}
 		}(p, pr.Ops)
 	}
